@@ -113,6 +113,9 @@ func multisets(n, max int) [][]int {
 
 func specs(tier core.Tier) []ListSpec {
 	maxS, maxR := 4, 3
+	if tier == core.Thorough {
+		maxS = 5
+	}
 	var out []ListSpec
 	for _, st := range multisets(nStyleProfiles, maxS) {
 		for _, rg := range multisets(nRegionProfiles, maxR) {
@@ -521,7 +524,7 @@ func init() {
 		Rule: "map iteration order is an environment choice owned by the explorer (instrumented build: every `range` over a map in package astisub walks its sorted keys permuted by a hook): states = (cue list, writer, map-range site) choice points, transitions = permutations chosen, every execution's bytes compared with the sorted-order bytes; all permutations for maps of <=4 entries, identity+rotations+adjacent transpositions for 5-6 entries; cue lists = all multisets of <=4 styles over 6 heterogeneous attribute profiles x multisets of <=3 regions over 3 profiles; plain build: 50 repetitions in-process, 4 fresh processes, deep purity snapshot (values, aliasing, len/cap, spare capacity) before/after every write, all 120 writer orders, two injectable clocks",
 		Scope: map[core.Tier]string{
 			core.Quick:    "210 style multisets x 6 region multisets (<=2 regions) + two 5-6-entry lists, 5 writers, all map orders; plain: purity on all of those, repetition/other-process/writer-order/clock on 5 lists",
-			core.Thorough: "210 x 10 region multisets (<=3 regions)",
+			core.Thorough: "462 style multisets (<=5 styles; 5-entry maps: rotations and adjacent transpositions) x 10 region multisets (<=3 regions)",
 		},
 		Assumptions: []string{"Go toolchain and standard library", "instrumented build = plain build with inert hooks (validated by running /repo's own tests against the overlay in setup and by the plain-build repetition checks)", "map walks inside dependencies are not controlled (encoding/xml marshals struct fields in declaration order; astikit.BiMap is only indexed)"},
 		Plain:       plainRun, Instr: instrRun, Replay: replay,
